@@ -77,6 +77,24 @@ func VerifC17Sh() {
 	verifCover("C17/sh/end")
 }
 
+// VerifC17ShBytes: values are byte strings, not necessarily valid UTF-8 (a file name, a binary token). The word
+// @sh produces expands to exactly those bytes: a stray 0xFF, a truncated or overlong sequence, a surrogate — next
+// to an arbitrary ASCII byte on either side.
+func VerifC17ShBytes() {
+	mids := []string{"\xff", "a\xffb", "\xc3\xa9", "\xc3", "\xe2\x82", "\xe2\x82\xac", "'\xff", "\xff'", "\xf0\x9f", "\x80a",
+		"\xc3\xa9'\xfe x", "\xc0\xaf", "\xed\xa0\x80", "\xf4\x90\x80\x80", "\xef\xbf\xbd", "\xff\xfe\xfd"}
+	mid := mids[verifChoice("mid", len(mids))]
+	s := verifStr("p", 1, "\x01\x7f") + mid + verifStr("q", 1, "\x01\x7f")
+	enc := (&shEncoder{}).encode(s)
+	val, ok, _ := c17ReadWord(enc)
+	verifAssert(ok, "C17/sh-unterminated-quoting bytes")
+	if !ok {
+		return
+	}
+	verifAssert(verifEqStr(val, s), "C17/sh-word-expands-to-other-bytes")
+	verifCover("C17/shbytes/end")
+}
+
 type c17Writer struct{ sb *strings.Builder }
 
 func (w c17Writer) Write(p []byte) (int, error) { return w.sb.Write(p) }
